@@ -18,7 +18,7 @@ pub struct Ctx {
     pub multi: bool,
 }
 
-pub const CTXS: [Ctx; 12] = [
+pub const CTXS: [Ctx; 13] = [
     Ctx { name: "local", pre: "local x = ", post: "\n", entry: "std", multi: true },
     Ctx { name: "assign", pre: "x = ", post: "\n", entry: "std", multi: true },
     Ctx { name: "return", pre: "return ", post: "\n", entry: "std", multi: true },
@@ -29,7 +29,8 @@ pub const CTXS: [Ctx; 12] = [
     Ctx { name: "arg-mid", pre: "f(a9, ", post: ", a8)\n", entry: "std", multi: false },
     Ctx { name: "field", pre: "local t = { ", post: " }\n", entry: "std", multi: true },
     Ctx { name: "field-named", pre: "local t = { k = ", post: " }\n", entry: "std", multi: false },
-    Ctx { name: "index", pre: "local y = t[", post: "]\n", entry: "std", multi: false },
+    Ctx { name: "index", pre: "local y = t[ ", post: " ]\n", entry: "std", multi: false },
+    Ctx { name: "key", pre: "local t = { [ ", post: " ] = 1 }\n", entry: "std", multi: false },
     Ctx { name: "prefix", pre: "local y = (", post: ").k\n", entry: "prefix", multi: false },
 ];
 
@@ -95,6 +96,16 @@ pub fn extract(ast: &ast::Ast, ctx: &str) -> Option<Expression> {
             Stmt::LocalAssignment(l) => match l.expressions().iter().next()? {
                 Expression::Var(ast::Var::Expression(ve)) => match ve.suffixes().next()? {
                     ast::Suffix::Index(ast::Index::Brackets { expression, .. }) => Some(expression.clone()),
+                    _ => None,
+                },
+                _ => None,
+            },
+            _ => None,
+        },
+        "key" => match first_stmt(ast)? {
+            Stmt::LocalAssignment(l) => match l.expressions().iter().next()? {
+                Expression::TableConstructor(t) => match t.fields().iter().next()? {
+                    ast::Field::ExpressionKey { key, .. } => Some(key.clone()),
                     _ => None,
                 },
                 _ => None,
@@ -320,6 +331,8 @@ pub fn run(tier: &str, seed: u64) -> Sink {
             trees.push(E::Bin(o, Box::new(E::Atom(1)), Box::new(c.clone())));
         }
     }
+    // long-bracket strings as leaves (they matter where the expression follows a `[`: index, table key)
+    trees.extend(gen(2, &["concat", "eq", "or"], &["h", "n"], &[E::Atom(700), E::Atom(0)], false).into_iter().filter(|t| t.sexp().contains("a700")));
     let nexh = trees.len();
     trees.extend(luau_trees);
     let total = trees.len() + rand_trees.len();
